@@ -387,7 +387,8 @@ def gen_expr(rng, depth=0):
     return '(' + ws(rng).strip(' ') + gen_expr(rng, depth + 1) + ')'
 
 
-JUNK = ['b == 2', 'and zzz', '17', "'lit'", 'zzz', ')', '(', 'AND', 'OR', '==', 'NOT', ']', ',', 'true', 'null', 'x y', '= 1', '!', '&& b == 2']
+JUNK = ['b == 2', 'and zzz', '17', "'lit'", 'zzz', ')', '(', 'AND', 'OR', '==', 'NOT', ']', ',', 'true', 'null', 'x y', '= 1', '!', '&& b == 2',
+        "'oops", '"', "'", "' OR zzz == 3", '"tail', "'a' '", "AND b == 'x", '\\', '#', ';', '}', 'b == 2 "']
 
 
 def mutate_text(rng, t):
